@@ -126,6 +126,7 @@ def rng_free_sub(c):
 #   ['para', [[kind, payload], ...]]        kind in text emph textbf footnote verb
 #   ['list', env, [[term or None, payload], ...]]
 #   ['tab', [[payload, ...], ...]]
+#   ['tabe', payload, payload]     a tabular with empty cells between and after the two leaves
 #   ['verbatim', payload]
 #   ['float', env, payload]
 #   ['quote', payload]
@@ -144,7 +145,7 @@ def rand_doc(rng, encoding, charsub):
         inl = [rng.choice(['emph', 'textbf']), P()] if rng.random() < 0.3 else None
         blocks.append(['sec', 'section', P(), inl])
         for _ in range(rng.choice([1, 2, 3])):
-            k = rng.choice(['para', 'para', 'list', 'tab', 'verbatim', 'float', 'quote', 'sub'])
+            k = rng.choice(['para', 'para', 'list', 'tab', 'tabe', 'verbatim', 'float', 'quote', 'sub'])
             if with_index and rng.random() < 0.5:
                 # an index entry: the index page links back with the (adversarial) title of the enclosing section as tooltip
                 blocks.append(['idx', 'k' + rng.choice(['apple', 'banana', 'cherry', 'date']) + rng.choice(['', '!sub', '!other']), P()])
@@ -160,6 +161,8 @@ def rand_doc(rng, encoding, charsub):
                 env = rng.choice(['itemize', 'enumerate', 'description'])
                 # an optional argument ends at the first "]" (TeX's rule, NF-args): none in a term
                 blocks.append(['list', env, [[P().replace(']', ')').replace('[', '(') if env == 'description' else None, P()] for _ in range(rng.choice([1, 2, 3]))]])
+            elif k == 'tabe':
+                blocks.append(['tabe', P(), P()])
             elif k == 'tab':
                 w = rng.choice([1, 2, 3])
                 blocks.append(['tab', [[P() for _ in range(w)] for _ in range(rng.choice([1, 2]))]])
@@ -202,6 +205,8 @@ def doc_leaves(blocks):
             out.append(b[1])
         elif k in ('float', 'idx'):
             out.append(b[2])
+        elif k == 'tabe':
+            out += [b[1], b[2]]
     return out
 
 
@@ -235,6 +240,9 @@ def map_leaves(blocks, f):
             out.append([k, b[1], g(b[2])])
         elif k == 'printindex':
             out.append(['printindex'])
+        elif k == 'tabe':
+            x = g(b[1])
+            out.append(['tabe', x, g(b[2])])
     return out
 
 
@@ -282,6 +290,9 @@ def doc_source(blocks, literal=False):
             src.append('\\begin{quote}%s\\end{quote}\n\n' % L(b[1]))
         elif k == 'float':
             src.append('\\begin{%s}\\caption{%s}\\end{%s}\n\n' % (b[1], L(b[2]), b[1]))
+        elif k == 'tabe':
+            first = L(b[1])
+            src.append('\\begin{tabular}{lll}\n%s & & %s \\\\\n & x & \n\\end{tabular}\n\n' % (first, L(b[2])))
         elif k == 'idx':
             src.append('%s\\index{%s}\n\n' % (L(b[2]), b[1]))
         elif k == 'printindex':
@@ -485,7 +496,7 @@ def streams(rng, tier, boost):
     for _ in range(n):
         out.append(('spec-vs-htmlparser', dict(kind='tok', s=rand_tok_string(rng))))
     for w in words(PT_SMALL, 4 if thorough else 3):
-        out.append(('exhaustive-post-tags', dict(kind='ptags', which=len(w) % 2, hi=0, s=w)))
+        out.append(('exhaustive-post-tags', dict(kind='ptags', which=len(w) % 2, hi=(len(w) // 2) % 2, s=w)))
     for _ in range(n):
         out.append(('random-post-tags', dict(kind='ptags', which=rng.choice([0, 1]), hi=rng.choice([0, 0, 1]), s=rand_tagstring(rng))))
     for _ in range((120 if not thorough else 1200) * boost):
@@ -521,7 +532,7 @@ def streams(rng, tier, boost):
 def all_positions(p):
     return [['sec', 'section', p, ['emph', p]], ['para', [['text', p], ['emph', p], ['textbf', p], ['footnote', p], ['verb', p.replace('|', '!')]]],
             ['list', 'itemize', [[None, p]]], ['list', 'enumerate', [[None, p]]], ['list', 'description', [[p.replace(']', ')').replace('[', '('), p]]],
-            ['tab', [[p, p], [p, p]]], ['verbatim', p], ['float', 'figure', p], ['float', 'table', p], ['quote', p],
+            ['tab', [[p, p], [p, p]]], ['tabe', p, p], ['verbatim', p], ['float', 'figure', p], ['float', 'table', p], ['quote', p],
             ['sec', 'section', p, None], ['sec', 'subsection', p, None], ['sec', 'subsubsection', p, None], ['sec', 'paragraph', p, None],
             ['para', [['text', p]]], ['idx', 'kapple', p], ['sec', 'section', p, ['textbf', p]], ['idx', 'kapple!sub', p], ['idx', 'kbanana', p],
             ['printindex']]
@@ -1018,6 +1029,10 @@ def judge(case, io, mo):
             a, b = htmlparse_text(case['s'])[0], htmlparse_text(io[1])[0]
             vis = lambda x: ''.join(c for c in x if c not in ' \t\n\r\x0b\x0c\u00a0')
             viol = vis(a) != vis(b) or b.count('\u00a0') < a.count('\u00a0')
+            if case['hi'] and any(ord(c) > 127 for c in io[1]):
+                return dict(violation=True, key='C12:post-tags:not-ascii', expected=unS(mo[1]) if mo[:1] == [0] else 'pure ASCII',
+                            what='escape-high-chars is on and %s.processFileContent(%r) = %r holds a character > 127' % (
+                                'XHTML' if case['which'] else 'HTML5', case['s'], io[1]))
         return dict(violation=viol, key='C12:post-tags:' + ('text-changed' if viol else 'model-differs'),
                     expected=unS(mo[1]) if mo[:1] == [0] else mo, what='%s.processFileContent(%r) = %r' % (
                         'XHTML' if case['which'] else 'HTML5', case['s'], io[1] if len(io) > 1 else io))
